@@ -4,6 +4,8 @@ CONSTANTS
   KS = {"r_class", "d_str", "keyframes", "comment"}
   CS = {"bmp", "private", "dquote"}
   SH = {"dig"}
+  CT = {}
+  FN = {}
 INVARIANT Generated
 INVARIANT EmitVec
 CHECK_DEADLOCK FALSE
